@@ -1,14 +1,14 @@
 import Py4hwV.Lib.Seq
-import Py4hwV.Emit.Flat
+import Py4hwV.Lib.SeqFlat
 /-
   C09, netlist level (model part, executable, imported by Drv/C09.lean): the netlists the constructors of the sequential
-  blocks build, as `FlatM.NetD` values (kinds in instantiation order, registers, widths, schedule) over a canonical
+  blocks build, as `SeqFlat.NetD` values (kinds in instantiation order, registers, widths, schedule) over a canonical
   wire numbering.  harness/c09.py dumps the LIVE constructor's netlist (dump_ir.py), renames its wires by NAME to the
   canonical numbering and compares it with `KNet.render` of the builder at every run (stream `netlist-import`).
   The theorems about these netlists are in Props/C09Net.lean.
 -/
 namespace C09N
-open Net FlatM Lib
+open Net SeqFlat Lib
 
 /-- a flat netlist given by primitive kinds (printable: compared with the live dump) -/
 structure KNet where
@@ -173,26 +173,16 @@ def kindStr : Kind → String
   | .or2 a b r => s!"Or2  : {nats [a, b]} > {r}"
   | .not1 a r => s!"Not  : {nats [a]} > {r}"
   | .buf a r => s!"Buf  : {nats [a]} > {r}"
-  | .zext a r => s!"ZeroExtend  : {nats [a]} > {r}"
-  | .bit a k r => s!"Bit {k} : {nats [a]} > {r}"
   | .mux2 sel s0 s1 r => s!"Mux2  : {nats [sel, s1, s0]} > {r}"
   | .const v r => s!"Constant {v} :  > {r}"
-  | .shl a n r => s!"ShiftLeftConstant {n} : {nats [a]} > {r}"
-  | .shr a n r => s!"ShiftRightConstant {n} : {nats [a]} > {r}"
   | .addc a b ci r => s!"AddCarryIn  : {nats [a, b, ci]} > {r}"
-  | .sub a b r => s!"Sub  : {nats [a, b]} > {r}"
-  | .mul a b r => s!"Mul  : {nats [a, b]} > {r}"
-  | .range a hi lo r => s!"Range {hi};{lo} : {nats [a]} > {r}"
-  | _ => "(kind not used by the C09 netlists)"
 
 def kindWires : Kind → List Nat
-  | .and2 a b r | .or2 a b r | .sub a b r | .mul a b r => [a, b, r]
-  | .not1 a r | .buf a r | .zext a r => [a, r]
-  | .bit a _ r | .shl a _ r | .shr a _ r | .range a _ _ r => [a, r]
+  | .and2 a b r | .or2 a b r => [a, b, r]
+  | .not1 a r | .buf a r => [a, r]
   | .mux2 sel s0 s1 r => [sel, s0, s1, r]
   | .const _ r => [r]
   | .addc a b ci r => [a, b, ci, r]
-  | _ => []
 
 def regStr (R : RLeaf) : String :=
   s!"Reg {R.rv};{if R.hasE then 1 else 0};{if R.hasR then 1 else 0} : {nats [R.e, R.r, R.d]} > {R.q}"
